@@ -230,6 +230,44 @@ def _output_event_sites(dtree, etree):
     return rows, binds
 
 
+def _rpc_wrapper(rtree, method, callee):
+    """around the call of the Supervisor method in the RPC method: which exception classes are caught and which fault is raised
+    for each, and the fault raised for a false result"""
+    from supervisor.xmlrpc import Faults
+    f = find_func(rtree, 'SupervisorNamespaceRPCInterface.' + method)
+    def fault_of(node):
+        rs = [n for n in ast.walk(node) if isinstance(n, ast.Raise)]
+        if len(rs) != 1 or not (isinstance(rs[0].exc, ast.Call) and _src(rs[0].exc.func) == 'RPCError' and rs[0].exc.args
+                                and _src(rs[0].exc.args[0]).startswith('Faults.')):
+            raise Untranslatable('%s: raise RPCError(Faults.X, ...) expected in %s' % (method, _src(node)[:80]))
+        nm = _src(rs[0].exc.args[0]).split('.')[1]
+        return nm, int(getattr(Faults, nm))
+    is_call = lambda n: isinstance(n, ast.Call) and _src(n.func) == callee
+    calls = [n for n in ast.walk(f) if is_call(n)]
+    if len(calls) != 1:
+        raise Untranslatable('%s: exactly one call of %s expected' % (method, callee))
+    caught = []
+    for t in [n for n in ast.walk(f) if isinstance(n, ast.Try)]:
+        if any(_contains(st, is_call) for st in t.body):
+            if t.finalbody or t.orelse:
+                raise Untranslatable(method + ': try with else/finally around the call')
+            for h in t.handlers:
+                if h.type is None:
+                    classes = ['BaseException']
+                elif isinstance(h.type, ast.Tuple):
+                    classes = [_src(e) for e in h.type.elts]
+                else:
+                    classes = [_src(h.type)]
+                if _contains(h, _is_notify):
+                    raise Untranslatable(method + ': a handler notifies')
+                nm, code = fault_of(h)
+                caught += [(c, nm, code) for c in classes]
+    falses = [n for n in ast.walk(f) if isinstance(n, ast.If) and _src(n.test) == 'not result']
+    if len(falses) != 1:
+        raise Untranslatable(method + ': `if not result: raise ...` expected')
+    return caught, fault_of(falses[0])
+
+
 def TABLES():
     stree = ast.parse(open(os.path.join(extract.REPO, 'supervisor/supervisord.py')).read())
     ptree = ast.parse(open(os.path.join(extract.REPO, 'supervisor/process.py')).read())
@@ -267,6 +305,15 @@ def TABLES():
             '  | readOld | retIfSame | setState | bumpBackoffIfBackoff | makeEvent | notify',
             'deriving DecidableEq, Repr',
             'def changeStateSteps : List CStep := [%s]' % ', '.join(_change_state_steps(ptree))]
+    rtree = ast.parse(open(os.path.join(extract.REPO, 'supervisor/rpcinterface.py')).read())
+    out.append('')
+    for lean, method, callee in (('rpcAdd', 'addProcessGroup', 'self.supervisord.add_process_group'),
+                                 ('rpcRemove', 'removeProcessGroup', 'self.supervisord.remove_process_group')):
+        caught, (fn, fc) = _rpc_wrapper(rtree, method, callee)
+        out.append('-- rpcinterface.py %s: exception classes caught around %s(...) and the fault answered for each: %s; a false result is answered %s' % (
+            method, callee, ', '.join('%s -> Faults.%s' % (c, n) for c, n, _ in caught) or 'none', 'Faults.' + fn))
+        out.append('def %sCaught : List (String × Int) := [%s]' % (lean, ', '.join('(%s, %d)' % (lean_str(c), code) for c, _, code in caught)))
+        out.append('def %sFalse : Int := %d' % (lean, fc))
     rows, binds = _output_event_sites(dtree, etree)
     out += ['', '-- dispatchers.py POutputDispatcher: every output event constructed and notified: (method, class, process argument, pid argument)',
             'def outputEventSites : List (String × String × String × String) := [%s]' % ', '.join(
